@@ -36,7 +36,10 @@ func oneshotWL(x *mon.Ctx) {
 	big := newBufs(1<<16 + 64)
 	defer big.free()
 
-	reps := x.Scale(1, 6)
+	reps := x.Scale(1, 10)
+	if raceBuild(x) {
+		reps = x.Scale(1, 2) // checkptr needs every path once, not random depth
+	}
 	for _, s := range allSpecs {
 		for n := s.min(); n <= maxLen(s, x.Thorough()); n += s.gran() {
 			for ki, ivk := range ivKinds(s) {
